@@ -186,6 +186,68 @@ theorem C13_no_key_served_unauthenticated (cfg : Cfg) (p : Pkt) (d : List Nat)
   rw [if_neg (by omega)]
   simp
 
+/-! ## the key is that of the addressed host, whatever was served before -/
+
+/-- **A request whose MAC was computed under another key than the one of its own addressing
+    (`keyOf`: server IA, addressed server host, client IA, client host) — e.g. under the key of
+    another local host address of the same server — is never served.**  `macF k p` is the MAC
+    oracle as a function of the key; `Pkt.mac` is `macF (keyOf p) p`; that distinct keys give
+    distinct MACs is the (assumed) strength of AES-CMAC, stated as hypothesis `hdiff`. -/
+theorem C13_key_of_addressed_host (macF : KeyId → Pkt → Option (List Nat))
+    (cfg : Cfg) (p : Pkt) (d : List Nat) (k' : KeyId)
+    (horacle : p.mac = macF (keyOf p) p)
+    (hother : macF k' p = some (d.drop metadataLen))
+    (hdiff : macF k' p ≠ macF (keyOf p) p)
+    (hl4 : p.l4 = .udp) (hf : cfg.fetcher = true) (he : p.e2e = true) (ha : p.auth = some d)
+    (hlen : d.length = optDataLen) (hmeta : authMeta d = .ok (spiClient, algorithm))
+    (hkey : fetchKey true cfg = .ok) :
+    ∀ r, handle cfg p ≠ .reply r := by
+  have hmac : p.mac ≠ some (d.drop metadataLen) := by
+    rw [horacle, ← hother]; exact fun h => hdiff h.symm
+  exact (C13_bad_mac_never_served cfg p d hl4 hf he ha hlen hmeta hkey hmac).1
+
+/-- **An honest request is served and answered with an authenticator**: verified under the key
+    of its own addressing, to the service port of a listener, acceptable to the NTP layer, over
+    a reversible path. -/
+theorem C13_honest_request_served (cfg : Cfg) (p : Pkt) (rt : Nat) (rp : List Nat)
+    (hv : verified cfg p) (hl4 : p.l4 = .udp) (hu : p.udpLenOk = true)
+    (hs : addrOk p.srcAddr = true) (hd : addrOk p.dstAddr = true)
+    (hp : p.dstPort = cfg.localHostPort) (hne : cfg.localHostPort ≠ EndhostPort)
+    (hn : p.ntpOk = true) (hr : p.rev = some (rt, rp)) :
+    handle cfg p = .reply (ntpReply cfg p true true rt rp) ∧
+    (ntpReply cfg p true true rt rp).auth.isSome = true := by
+  have hac : authCheck true cfg p = .go true := hv
+  obtain ⟨_, _, d, hda, _⟩ := (C13_verified_iff cfg p).mp hv
+  constructor
+  · unfold handle handleG
+    simp [hl4, hu, hs, hd, hp, hne, hac, hn, hr]
+  · simp [ntpReply, hda]
+
+/-- The outcome for a datagram does not depend on the datagrams handled before it: the i-th
+    outcome of any history is `handle` of the i-th datagram alone (in particular two requests
+    that differ only in the addressed host are each checked against their own oracle MAC). -/
+theorem C13_history_independent (cfg : Cfg) (before after : List Pkt) (p : Pkt) :
+    (serve cfg (before ++ p :: after))[before.length]? = some (handle cfg p) := by
+  simp [serve]
+
+/-- non-vacuity for `C13_key_of_addressed_host`: hosts A = 10.2.0.1 and B = 10.2.0.2 with an
+    oracle that gives distinct MACs for distinct server hosts; the request addressed to B with
+    the MAC under A's key is dropped, the honest one to B is served (see also the key histories
+    of harness/cmd/c13 on the real listener with real-derivation keys). -/
+example :
+    let macF : KeyId → Pkt → Option (List Nat) := fun k _ => some (List.replicate 16 (k.serverHost.getD 3 0))
+    let toB (macByte : Nat) : Pkt :=
+      { lastHop := 0, tc := 0, srcIA := 1, dstIA := 2, srcType := 0, dstType := 0,
+        srcAddr := [10, 1, 0, 9], dstAddr := [10, 2, 0, 2], pathType := 0, path := [], rev := some (0, []),
+        l4 := .udp, srcPort := 5000, dstPort := 10123, udpLenOk := true, e2e := true,
+        auth := some ([0, 3, 0, 123, 0, 0, 0, 0, 0, 0, 0, 0] ++ List.replicate 16 macByte),
+        mac := some (List.replicate 16 2), payload := [], ntpOk := true }
+    (toB 1).mac = macF (keyOf (toB 1)) (toB 1) ∧
+    macF { keyOf (toB 1) with serverHost := [10, 2, 0, 1] } (toB 1) = some (List.replicate 16 1) ∧
+    handle (serverCfg 10123 10123 46 false false true) (toB 1) = .drop "bad-mac" ∧
+    (match handle (serverCfg 10123 10123 46 false false true) (toB 2) with
+      | .reply r => r.auth.isSome | _ => false) = true := by decide
+
 /-! ## reply addressing -/
 
 /-- Shape of every reply: built by `scmpReply` (SCMP echo/traceroute request) or by
